@@ -28,7 +28,8 @@ G = {
     "<start>": ["<stmt>"],
     "<stmt>": ["<assgn> ; <stmt>", "<assgn>"],
     "<assgn>": ["<var> := <rhs>"],
-    "<rhs>": ["<var>", "<num>"],
+    "<rhs>": ["<var>", "<num>", "<pnum>"],
+    "<pnum>": ["+<digit>", "0<digit><digit>"],
     "<num>": ["<digit><num>", "<digit>"],
     "<var>": ["a", "b", "c"],
     "<digit>": list("0123456789"),
@@ -50,7 +51,11 @@ CONSTRAINTS = [
     'exists <stmt> s in start: (= (str.len s) 12)',
     'count(start, "<stmt>", "3")',
     '(exists <num> n in start: (= n "7")) and (forall <num> m in start: (= (str.len m) 1))',
+    # signed / zero-padded number format without a plain "0": only the exception contract is checked for these (Z3 itself
+    # evaluates str.to.int("+0") to -1, the reference semantics cannot judge them)
+    'exists <pnum> p in start: (= (str.to.int p) 0)',
 ]
+C02_ONLY = {16}
 PARSED = [parse_isla(c, G, STANDARD_STRUCTURAL_PREDICATES, STANDARD_SEMANTIC_PREDICATES) for c in CONSTRAINTS]
 LIMITS = [1, 3, 10]
 NSOL = int(os.environ.get("VERIF_NSOL", "5"))
@@ -110,7 +115,8 @@ def check_solution(ci, t, what):
 def call(solver):
     """one solve() call under a wall-clock guard: ('tree', t) | ('stop',) | ('timeout',) | ('raise', e)"""
     signal.signal(signal.SIGALRM, _on_alarm)
-    signal.alarm(CALL_LIMIT_S)
+    # repeating timer: an alarm that fires inside a C callback is lost, the next one a second later is not
+    signal.setitimer(signal.ITIMER_REAL, CALL_LIMIT_S, 1.0)
     try:
         return ("tree", solver.solve())
     except StopIteration:
@@ -122,10 +128,38 @@ def call(solver):
     except Exception as e:
         return ("raise", e)
     finally:
-        signal.alarm(0)
+        signal.setitimer(signal.ITIMER_REAL, 0)
+
+
+class _ClockModule:
+    """stands in for the `time` module inside isla.solver: only time() is replaced"""
+
+    def __init__(self, clock, real):
+        self._clock, self._real = clock, real
+
+    def time(self):
+        return self._clock.time()
+
+    def __getattr__(self, name):
+        return getattr(self._real, name)
+
+
+def _with_clock(clock, fn):
+    real = S.time
+    S.time = _ClockModule(clock, real)
+    try:
+        return fn()
+    finally:
+        S.time = real
 
 
 def _run(v) -> bool:
+    # frozen clock: the solver's (and its unsat-support's internal) timeouts depend on the wall clock, which would make
+    # verdicts irreproducible; timeouts are the subject of h_timeout, where the clock is driven by the solver
+    return _with_clock(Clock([0]), lambda: _run_inner(v))
+
+
+def _run_inner(v) -> bool:
     ci = v[0]
     what0 = "solve() [constraint #%d %r, free=%d smt=%d optimized=%d unique=%d methods=%d seed=%d unsat_support=%d]" % (
         ci, CONSTRAINTS[ci], LIMITS[v[1]], LIMITS[v[2]], v[3], v[4], v[5], v[6], v[7])
@@ -150,7 +184,7 @@ def _run(v) -> bool:
                 raise AssertionError("%s: after %s was raised, a later call gave %s" % (what, ended, r[0]))
             continue
         if r[0] == "tree":
-            if k < NSOL and MODE != "c02":
+            if k < NSOL and MODE != "c02" and ci not in C02_ONLY:
                 check_solution(ci, r[1], what)
         else:
             ended = r[0]
@@ -211,19 +245,11 @@ class Clock:
         return self.now
 
 
-def _run_timeout(v, incs) -> bool:
+def _run_timeout(v, incs, configured) -> bool:
     ci = v[0]
-    clock = Clock(incs)
-    real_time = S.time
 
-    class _T:
-        time = staticmethod(clock.time)
-
-        def __getattr__(self, name):
-            return getattr(real_time, name)
-    S.time = _T()
-    try:
-        solver = mk_solver(v, timeout=3)
+    def body():
+        solver = mk_solver(v, timeout=3 if configured else None)
         ended = None
         for k in range(NSOL + 4):
             r = call(solver)
@@ -231,19 +257,23 @@ def _run_timeout(v, incs) -> bool:
                 if k == 0:
                     _ignored(v, "first solve() call exceeded %d s (timeout harness)" % CALL_LIMIT_S)
                 break
-            what = "call %d with timeout_seconds=3 and clock increments %s [constraint #%d, free=%d smt=%d optimized=%d unique=%d methods=%d seed=%d unsat_support=%d]" % (
-                k + 1, incs, ci, LIMITS[v[1]], LIMITS[v[2]], v[3], v[4], v[5], v[6], v[7])
+            what = "call %d with timeout_seconds=%s and clock increments %s [constraint #%d, free=%d smt=%d optimized=%d unique=%d methods=%d seed=%d unsat_support=%d]" % (
+                k + 1, 3 if configured else None, incs, ci, LIMITS[v[1]], LIMITS[v[2]], v[3], v[4], v[5], v[6], v[7])
             if r[0] == "raise":
                 raise AssertionError("%s raised %s: %s" % (what, type(r[1]).__name__, str(r[1])[:120]))
+            if r[0] == "timeout" and not configured:
+                raise AssertionError("%s raised TimeoutError although no timeout is configured" % what)
             if ended is not None:
                 if r[0] != ended:
                     raise AssertionError("%s: after %s was raised, a later call gave %s" % (what, ended, r[0]))
                 continue
             if r[0] != "tree":
                 ended = r[0]
-    finally:
-        S.time = real_time
-    return True
+        return True
+    return _with_clock(Clock(incs), body)
+
+
+CONFIGURED = int(os.environ.get("VERIF_CONFIGURED", "1"))
 
 
 def h_timeout(v: List[int], incs: List[int]) -> bool:
@@ -252,4 +282,4 @@ def h_timeout(v: List[int], incs: List[int]) -> bool:
     pre: 1 <= len(incs) <= 2 and all(0 <= x <= 2 for x in incs)
     post: _
     """
-    return vlib.untraced(_isolated, _run_timeout, [int(x) for x in vlib.realize(v)], [int(x) for x in vlib.realize(incs)])
+    return vlib.untraced(_isolated, _run_timeout, [int(x) for x in vlib.realize(v)], [int(x) for x in vlib.realize(incs)], CONFIGURED)
